@@ -391,6 +391,29 @@ obligation `format_checker_is_cache_free` over `Generated/FormatCaches.lean`). S
 of a program are the verdicts of its occurrences, one by one. -/
 def pyaProgram (p : List Occ) : List POut := p.map pyaOcc
 
+/-! ### Entry routes
+
+`check_string_format` is reached from `_visit_binop_internal` (name_check_visitor.py:3742) under the
+guard "`op` is `%` and the left operand is a `KnownValue` holding a str/bytes", whatever syntax
+produced the operator node and the known left value; `_str_format_impl` is the `impl` of
+`str.format`. The route is therefore only a tag: the verdict is a function of (template, operand).
+The registered routes are pinned against the live source by `format_entry_routes_registered`
+(`Generated/FormatRoutes.lean`), and the `route` correspondence stream drives every one of them. -/
+
+/-- How a `%` occurrence is written in the checked program. -/
+inductive Route
+  | binop        -- `T % A`
+  | augAssign    -- `t = T; t %= A`            (visit_AugAssign, is_inplace)
+  | localName    -- `t = T; t % A`
+  | moduleConst  -- `K = T` at module level, `K % A` in a function
+  | finalName    -- `K: Final = T`
+  | literalParam -- parameter annotated `Literal[T]`
+  | concat       -- `"a%d" "b%s" % A` (adjacent literals)
+  | multiline    -- parenthesised, operator on a continuation line
+  | inCall | inReturn | inComprehension | inIf | inLambda
+  deriving DecidableEq, Repr, Inhabited
+
+def pyaOccR (_r : Route) (o : Occ) : POut := pyaOcc o
 /-- The deliberately stricter lint rules (documented in the source: the comment in
 `PercentFormatString.accept` about `'' % {'a': 3}`, and the mixing rule of `lint`). -/
 def PErr.lintOnly : PErr → Bool
@@ -591,5 +614,18 @@ def pyaFormat (t : List Char) (nargs : Nat) (kws : List (List Char)) : List FMsg
 def FMsg.lintOnly : FMsg → Bool
   | .unusedIdx | .unusedKw => true
   | _ => false
+
+/-- How a `str.format` occurrence is written. -/
+inductive FRoute
+  | method       -- `T.format(…)`
+  | strDotFormat -- `str.format(T, …)`
+  | localName    -- `t = T; t.format(…)`
+  | moduleConst  -- `K = T`; `K.format(…)`
+  | starNames    -- `T.format(*xs, **d)` with `xs`, `d` locals holding literals
+  | starLiterals -- `T.format(*(…,), **{…})`
+  deriving DecidableEq, Repr, Inhabited
+
+def pyaFormatR (_r : FRoute) (t : List Char) (nargs : Nat) (kws : List (List Char)) : List FMsg :=
+  pyaFormat t nargs kws
 
 end Pya.C17
